@@ -212,7 +212,7 @@ def run(ctx):
             res.add(Violation(PROP, kind, site, what, {"engine": "BISIM", "type": tkey, "input": j}, node=j))
     # layer 3 (evolved model, second generate() in the same interpreter): a small slice, then the same slice evolved
     from .c16 import evolve_for_history
-    small = docs.slice_model(doc, methods=("shutdown", "exit", "textDocument/didOpen", "textDocument/willSaveWaitUntil", "workspace/applyEdit"), names=())
+    small = docs.slice_model(doc, methods=("shutdown", "exit", "textDocument/didOpen", "textDocument/willSaveWaitUntil", "workspace/applyEdit", "textDocument/foldingRange"), names=())
     ev = evolve_for_history(small)
     logging.disable(logging.CRITICAL)
     try:
